@@ -190,10 +190,20 @@ def gen_traces(tier, sd):
     wd = tlc.workdir("traces")
 
     def rnd(k):
-        path = os.path.join(wd, "r%d.json" % k)
-        run_driver("robot_driver.py", ["--out", path, "--seed", sd * 1000 + k, "--n", per, "--first-id", 1 + k * per],
-                   cwd=tlc.workdir("rdrv"))
-        return json.load(open(path))
+        if per <= 250:
+            path = os.path.join(wd, "r%d.json" % k)
+            run_driver("robot_driver.py", ["--out", path, "--seed", sd * 1000 + k, "--n", per, "--first-id", 1 + k * per],
+                       cwd=tlc.workdir("rdrv"))
+            return json.load(open(path))
+        # (at most 250 robots per driver process: the simulator's native libraries do not like thousands of robot
+        #  objects in one process)
+        out = []
+        for j in range(0, per, 250):
+            path = os.path.join(wd, "r%d_%d.json" % (k, j))
+            run_driver("robot_driver.py", ["--out", path, "--seed", (sd * 1000 + k) * 100 + j // 250, "--n", min(250, per - j),
+                                           "--first-id", 1 + k * per + j], cwd=tlc.workdir("rdrv"))
+            out += json.load(open(path))
+        return out
 
     def sim():
         r = tlc.run("Sim_MagicRobot", sim_cfg(p["sim_depth"]), workers=1, heap="2g", timeout=1800,
